@@ -72,7 +72,7 @@ impl Property for C17 {
         "histories: a base series (1-60 abscissae built from increments incl. exact repeats and 1e-6 gaps; lattice/real ordinates; optional NaN ordinates) followed by 0-5 derived operations (scale incl. negative, shift, between/in_interval/split with cut points on knots or strictly inside segments, resample by n / by spacing, abs); after every step the sorted/finite/length invariant and the function identities against the harness's own piecewise-linear evaluator are checked; plus domain constructor cases (try_from, linear with bounds in either order, linear_space, push, index_of, Series1::try_new). Non-trivial: >=2 ops with at least one cut strictly inside a segment and (a repeated abscissa or a negative x scale); for constructor cases: reversed bounds, rejected pushes, unsorted/non-finite inputs. Distinct = distinct canonical JSON."
     }
     fn cases(t: Tier) -> u32 {
-        t.pick(600_000, 30_000_000)
+        t.pick(1_800_000, 30_000_000)
     }
     fn expected_labels() -> Vec<&'static str> {
         vec!["series", "repeated_abscissa", "negative_scale", "cut_inside", "cut_on_knot", "split", "resample", "crossings", "linear_reversed", "push_rejected", "try_from_err", "had_nan", "single_point"]
